@@ -464,7 +464,7 @@ func c11Exec(cfg c11Cfg, choose func(step int, alts []c11Label) int) (*c11Result
 				}
 			}
 			// committed
-			if s.kind == c11Idle && s.pc == len(progs[t]) {
+			if s.kind == c11Idle && s.pc > c11CommitIdx(progs[t]) {
 				for nm, h := range holds {
 					if h.w == t {
 						delete(holds, nm)
@@ -788,6 +788,40 @@ func c11Scenarios() []c11Cfg {
 	return out
 }
 
+// index of the Commit of a program (its length if there is none)
+func c11CommitIdx(p []c11Op) int {
+	for i, o := range p {
+		if o.commit {
+			return i
+		}
+	}
+	return len(p)
+}
+
+// configurations with accesses AFTER the Commit of the same transaction (the straggler goroutine of an
+// operation that has already returned, fix 1944012): earlier access none / read / write same name / write
+// other name, Commit(false) and Commit(true), late access read or write on A or B
+func c11LateCfgs() (alone []c11Cfg, paired []c11Cfg) {
+	const A, B = 0, 1
+	earlier := [][]c11Op{nil, {c11Acc(A, true, c11OK)}, {c11Acc(A, false, c11OK)}, {c11Acc(B, false, c11OK)}, {c11Acc(A, false, c11CbFail)}}
+	late := []c11Op{c11Acc(A, false, c11OK), c11Acc(B, false, c11OK), c11Acc(A, true, c11OK), c11Acc(B, true, c11OK)}
+	for _, e := range earlier {
+		for _, fl := range []bool{false, true} {
+			for _, l := range late {
+				p := append(append([]c11Op{}, e...), c11Op{commit: true, fail: fl}, l)
+				for _, lim := range []int64{-1, 0, 1} {
+					alone = append(alone, c11Cfg{limit: lim, progs: [][]c11Op{p}, probe: true, kind: "late"})
+				}
+				paired = append(paired, c11Cfg{limit: -1, progs: [][]c11Op{p, c11Prog(c11Acc(A, false, c11OK))}, probe: true, kind: "late-pair"})
+				// two late accesses: the second one meets what the first one left behind
+				p2 := append(append([]c11Op{}, p...), c11Acc(A, false, c11OK))
+				paired = append(paired, c11Cfg{limit: -1, progs: [][]c11Op{p2, c11Prog(c11Acc(B, true, c11OK))}, probe: true, kind: "late-pair"})
+			}
+		}
+	}
+	return
+}
+
 func c11RandProg(r *rand.Rand, maxLen int) []c11Op {
 	n := 1 + r.IntN(maxLen)
 	var acc []c11Op
@@ -804,6 +838,12 @@ func c11RandProg(r *rand.Rand, maxLen int) []c11Op {
 	p := c11Prog(acc...)
 	if r.IntN(10) == 0 {
 		p[len(p)-1].fail = true // abort for a reason outside the cache (storage error)
+	}
+	if r.IntN(5) == 0 {
+		// accesses that arrive after the Commit of their own transaction
+		for k := 1 + r.IntN(2); k > 0; k-- {
+			p = append(p, c11Acc(r.IntN(2), r.IntN(3) == 0, c11OK))
+		}
 	}
 	return p
 }
@@ -846,6 +886,12 @@ func (o *c11Out) emit(cfg c11Cfg, res *c11Result) {
 	}
 	if len(cfg.envs) > 0 {
 		o.hist["with Release events"]++
+	}
+	for _, p := range cfg.progs {
+		if c11CommitIdx(p) < len(p)-1 {
+			o.hist["with accesses after the Commit of their transaction"]++
+			break
+		}
 	}
 	if res.tag && len(o.rc.samples) < 2 || len(o.rc.samples) < 1 {
 		var ls []string
@@ -958,6 +1004,44 @@ outer:
 	out.hist["two-transaction configurations in the stated bound"] = pairs
 	exhaustive["two transactions"] = map[string]any{"program_length_max": maxLen, "configurations": pairs, "configurations_done": pairsDone,
 		"schedules": sched2, "all_configurations": complete2}
+	// ---- 2b. accesses after the Commit of the same transaction
+	lateAlone, latePaired := c11LateCfgs()
+	nlate := 0
+	for _, cfg := range lateAlone {
+		cnt, _, err := c11Enumerate(cfg, 1000000, visit(cfg))
+		if err != nil {
+			return err
+		}
+		nlate += cnt
+	}
+	perLate := 12
+	if rc.thorough() {
+		perLate = 1000000
+	}
+	rl := newRng(rc.seed, 1112)
+	for _, cfg := range latePaired {
+		var got []*c11Result
+		cnt, complete, err := c11Enumerate(cfg, perLate, func(res *c11Result) { got = append(got, res) })
+		if err != nil {
+			return err
+		}
+		if complete {
+			for _, res := range got {
+				out.emit(cfg, res)
+			}
+			nlate += cnt
+		} else {
+			for k := 0; k < perLate; k++ {
+				res, err := c11Exec(cfg, func(step int, alts []c11Label) int { return rl.IntN(len(alts)) })
+				if err != nil {
+					return err
+				}
+				out.emit(cfg, res)
+				nlate++
+			}
+		}
+	}
+	exhaustive["accesses after Commit"] = map[string]any{"configurations": len(lateAlone) + len(latePaired), "schedules": nlate}
 	// ---- 3. sampled: two and three transactions with programs of length <= 2, random interleavings,
 	//         Release events at random moments
 	r3 := newRng(rc.seed, 1111)
